@@ -684,6 +684,33 @@ func (n *dnode) fromScratch() map[string]struct{} {
 	return st.DeletedIds
 }
 
+// refDeleted: the deletions recorded in node n's settings log, read by the harness itself from the stored
+// changes (every change's own delete entries; snapshots are not trusted), independent of the state builder.
+func (n *dnode) refDeleted() map[string]bool {
+	out := map[string]bool{}
+	_ = n.settings.Storage().GetAfterOrder(ctxb, "", func(_ context.Context, c objecttree.StorageChange) (bool, error) {
+		raw := &treechangeproto.RawTreeChange{}
+		if raw.UnmarshalVT(c.RawChange) != nil {
+			return true, nil
+		}
+		tc := &treechangeproto.TreeChange{}
+		if tc.UnmarshalVT(raw.Payload) != nil || len(tc.TreeHeadIds) == 0 {
+			return true, nil // the root
+		}
+		sd := &spacesyncproto.SettingsData{}
+		if sd.UnmarshalVT(tc.ChangesData) != nil {
+			return true, nil
+		}
+		for _, cnt := range sd.Content {
+			if d := cnt.GetObjectDelete(); d != nil {
+				out[d.GetId()] = true
+			}
+		}
+		return true, nil
+	})
+	return out
+}
+
 func (w *world) settingsCheck(when string) {
 	type view struct {
 		n   *dnode
@@ -695,6 +722,20 @@ func (w *world) settingsCheck(when string) {
 			continue
 		}
 		scratch := n.fromScratch()
+		ref := n.refDeleted()
+		for id := range ref {
+			if _, ok := scratch[id]; !ok {
+				w.r.Fail("derived-set-misses-recorded-deletion", "scratch", "%s (%s): the settings log holds a change deleting %s, but the set derived from scratch from that log does not contain it", n.name, when, w.byId[id])
+			}
+			if !n.delState.Exists(id) {
+				w.r.Fail("derived-set-misses-recorded-deletion", "incremental", "%s (%s): the settings log holds a change deleting %s, but the node's deletion state does not contain it", n.name, when, w.byId[id])
+			}
+		}
+		for id := range scratch {
+			if !ref[id] {
+				w.r.Fail("derived-set-has-unrecorded-deletion", "", "%s (%s): the set derived from the settings log contains %s, which no change of the log deletes", n.name, when, w.byId[id])
+			}
+		}
 		var names []string
 		for id := range scratch {
 			if o := w.byId[id]; o != nil {
